@@ -30,7 +30,7 @@ MODULE = "example.com/msg"
 RTMOD = "github.com/xinchentechnote/fin-proto-go"
 REGISTRY = "zz_verif_registry.go"
 DRVDIR = "zzverifdrv"
-VERSION = "go-plugin-2"
+VERSION = "go-plugin-" + sha(read(os.path.abspath(__file__)))[:12]      # part of the memo key
 SUM_MODS = ("github.com/stretchr/testify v1.11.1", "github.com/davecgh/go-spew v1.1.1",
             "github.com/pmezard/go-difflib v1.0.0", "gopkg.in/yaml.v3 v3.0.1")
 DRIVER_TIMEOUT = 120
@@ -287,9 +287,9 @@ class Go(Lang):
         return res
 
     # ---------------------------------------------------------------------------------------
-    def _gotest(self, moddir):
+    def _gotest(self, moddir, module=MODULE):
         go, env = self._env()
-        r = run([go, "test", "-json", "-timeout", "120s", "-trimpath", "-gcflags=%s=-e" % MODULE, "-ldflags=-s -w", "./..."], cwd=moddir, env=env, timeout=600)
+        r = run([go, "test", "-json", "-timeout", "120s", "-trimpath", "-gcflags=%s=-e" % module, "-ldflags=-s -w", "./..."], cwd=moddir, env=env, timeout=600)
         ran = passed = failed = 0
         build_fail = False
         blog, tlog = [], []
@@ -344,7 +344,7 @@ class Go(Lang):
                 break
         write(os.path.join(t, "go.mod"), self._gomod(module=module, tests=True))
         write(os.path.join(t, "go.sum"), _gosum())
-        r = self._gotest(t)
+        r = self._gotest(t, module)
         log = r["blog"] if not r["build_ok"] else ""
         if r["failed"] or (r["rc"] != 0 and r["build_ok"]):
             log += "\n" + r["tlog"]
@@ -357,12 +357,14 @@ class Go(Lang):
                     break
                 if not self._patch_unused(t, plog):
                     break
-                r2 = self._gotest(t)
+                r2 = self._gotest(t, module)
                 plog = r2["blog"]
+                if not r2["build_ok"]:
+                    res["log"] = (log.strip()[-700:] + "\n--- copy without the unused imports ---\n" + plog.strip()[-700:])
                 if r2["build_ok"]:
                     res.update(ran=r2["ran"], passed=r2["passed"], failed=r2["failed"], patched="unused-imports")
                     if r2["failed"]:
-                        res["log"] = (res["log"] + "\n--- patched copy ---\n" + r2["tlog"])[-1500:]
+                        res["log"] = (log.strip()[-500:] + "\n--- copy without the unused imports ---\n" + r2["tlog"].strip()[-1000:])
                     break
         return res
 
